@@ -574,7 +574,7 @@ Definition synth (tr : trace) : option (list event) :=
 
 Definition accept_with (tr : trace) (es : list event) : option state :=
   match steps init es, trace_obs tr with
-  | Some s, Some os => if obs_list_eqb (proj_run init es) os && no_timeout es then Some s else None
+  | Some s, Some os => if obs_list_eqb (proj_run init es) os && no_timeout es && order_safe es then Some s else None
   | _, _ => None
   end.
 
